@@ -4,7 +4,7 @@ model: Threshold.tla owns the documented ansatz in exact integer arithmetic
 (nu = 1), the box of well-conditioned planted cases, the layouts (row orders,
 splits over files, path orders) and the case analysis of get_fit_status;
 Threshold_Model.tla checks them (conditioning, monotone curves crossing at
-p_th only, success <=> plausible on 20 480 entries) and emits the domain.
+p_th only, success <=> plausible on 25 600 entries) and emits the domain.
 spec -> code: every emitted case is materialised as real result files whose
 logical error rates lie on the ansatz, in every layout; the REAL
 Analysis(...).calculate_thresholds() estimates the threshold; the REAL
@@ -370,7 +370,8 @@ def status_records(entries):
             params[0] = 0.1
         entry = {'fss_params': np.array(params), 'p_th_fss': val(e['th']),
                  'p_th_fss_left': val(e['left']), 'p_th_fss_right': val(e['right']),
-                 'p_th_fss_se': val(e['se']), 'p_left': val(e['pl']), 'p_right': val(e['pr'])}
+                 'p_th_fss_se': 3e-7 if e['se'] == 1 else val(e['se']),      # a tiny but positive uncertainty
+                 'p_left': val(e['pl']), 'p_right': val(e['pr'])}
         try:
             with contextlib.redirect_stdout(io.StringIO()):
                 obs = str(an.get_fit_status(entry))
